@@ -111,6 +111,11 @@ pub struct Case {
     /// rolling - the trace, not the state, is what the run has to follow
     #[serde(default)]
     pub init_speed_unset: bool,
+    /// before every top-level interval change one unit of the consist is given an interval of its own (a unit
+    /// configured individually, or exchanged): the top-level change that follows must still reach everything,
+    /// also when it sets the value the consist itself already has
+    #[serde(default)]
+    pub nested_drift: bool,
 }
 
 // ------------------------------------------------------------------------------------------------
@@ -526,7 +531,18 @@ pub fn generate(rng: &mut Rng, focus: &str, thorough: bool) -> Case {
         hash_seed: rng.next(),
         init_offset: None,
         init_speed_unset: false,
+        nested_drift: false,
     };
+    if !c.interval_changes.is_empty() && rng.chance(0.4) {
+        c.nested_drift = true;
+        // ... including a change to the value that is already in force (twice the same, or the initial one)
+        let (k0, v0) = c.interval_changes[0];
+        c.interval_changes.push((k0 + rng.usize(1, 40), if rng.chance(0.7) { v0 } else { c.save_interval }));
+        if rng.chance(0.4) {
+            c.interval_changes.insert(0, (k0.saturating_sub(1).max(1), c.save_interval));
+        }
+        c.interval_changes.sort_by_key(|x| x.0);
+    }
     if let Kind::SetSpeed { v0, .. } = &c.kind {
         c.init_speed_unset = *v0 > 0.0 && rng.chance(0.12);
     }
@@ -829,6 +845,15 @@ fn loco_sums_at(con: &Consist, k: usize) -> (f64, f64, f64) {
         }
     }
     s
+}
+
+/// one unit gets an interval of its own, different from the one about to be set at the top
+fn nested_drift(con: &mut Consist, about_to_set: Option<usize>) {
+    let own = if about_to_set == Some(9) { None } else { Some(9) };
+    let n = con.loco_vec.len();
+    if let Some(l) = con.loco_vec.get_mut(n / 2) {
+        l.set_save_interval(own);
+    }
 }
 
 fn check_levels(ctx: &mut Ctx, tr: &Traj) {
@@ -1173,6 +1198,10 @@ pub fn execute(case: &Case, ctx: &mut Ctx) {
                         ci += 1;
                     }
                     while ii < case.interval_changes.len() && case.interval_changes[ii].0 <= k {
+                        if case.nested_drift {
+                            nested_drift(&mut sim.loco_con, case.interval_changes[ii].1);
+                            ctx.hit("fault.interval.nested_drift_before_change");
+                        }
                         sim.set_save_interval(case.interval_changes[ii].1);
                         al.interval = case.interval_changes[ii].1;
                         ctx.hit("fault.interval.change");
@@ -1436,6 +1465,10 @@ impl Runner {
             self.ci += 1;
         }
         while self.ii < case.interval_changes.len() && case.interval_changes[self.ii].0 <= self.k {
+            if case.nested_drift {
+                nested_drift(&mut self.sim.loco_con, case.interval_changes[self.ii].1);
+                ctx.hit("fault.interval.nested_drift_before_change");
+            }
             self.sim.set_save_interval(case.interval_changes[self.ii].1);
             self.al.interval = case.interval_changes[self.ii].1;
             ctx.hit("fault.interval.change");
@@ -1743,6 +1776,11 @@ pub fn shrink(case: &Case) -> Vec<Case> {
     if case.init_speed_unset {
         let mut c = case.clone();
         c.init_speed_unset = false;
+        out.push(c);
+    }
+    if case.nested_drift {
+        let mut c = case.clone();
+        c.nested_drift = false;
         out.push(c);
     }
     out
